@@ -1,12 +1,43 @@
 """C11: responses forbidden to be stored are never served from cache (end to end through the real squid)."""
 import concurrent.futures, json, os, random, time
-from vlib import std, lab, common
+from vlib import std, lab, common, coq, hbuild, recipes
 
 PID = "C11"
 META = {
-    "text": "TODO",
-    "note": "TODO",
-    "technique": "TODO",
+    "text": "Theorems (Properties_C11.v, 13, all closed under the global context) about ReuseModel.v, a branch-for-branch "
+            "Gallina transcription of HttpHdrCc::parse (strListGetItem, httpHeaderParseInt/strtol, "
+            "httpHeaderParseQuotedString incl. its quirks), clientInterpretRequestHeaders / maybeCacheable / "
+            "storeCreateEntry, hdrExpirationTime, timestampsSet, HttpStateData::reusableReply + haveParsedReplyHeaders, "
+            "refreshStaleness/refreshCheck/refreshIsCachable and the identifyStoreObject/cacheHit dispatch: for ALL "
+            "request/response header sets, statuses, times and ALL values of negative_ttl, minimum_expiry_time, max_stale "
+            "and the refresh rule's min/percent/max: if the response's Cache-Control (all fields joined, read as "
+            "comma-separated OWS-trimmed elements, any letter case, with or without argument) contains no-store or "
+            "private, or the request's contains no-store, the second identical request is never a hit and goes to the "
+            "origin unconditionally (C11_forbidden_never_hit; same over Squid's own quote-aware list reader without the "
+            "quote-free restriction: C11_response_no_store/_private/_request_no_store_never_reused); with Authorization a "
+            "hit implies a public, must-revalidate or s-maxage element in the response (C11_authorization_*; the "
+            "USE_HTTP_VIOLATIONS no-cache exemption stores with ENTRY_REVALIDATE_ALWAYS and is proved to revalidate) under "
+            "the default negative_ttl<=0 -- the hypothesis is necessary: witness theorem with negative_ttl 300 (authenticated "
+            "404 + no-cache is a negative hit), confirmed against the running squid by a corpus scenario. Components: "
+            "HttpHdrCc::parse never misses a no-store/private element and never invents public/must-revalidate/s-maxage; "
+            "list reading = comma split/trim/non-empty for quote-free text; loop bound sufficiency; hard-wired defaults "
+            "re-read from cf.data.pre. Tie: directive/status/method tables, RefreshPattern and squid.conf defaults "
+            "regenerated; extracted model diffed (a) end to end against the running squid built from the working tree "
+            "(does the second identical request reach the origin, and conditionally?) and (b) at unit level against "
+            "HttpHeader::getCc / httpHeaderParseInt / strListGetItem / hasListMember compiled from the working tree.",
+    "note": "partial: the theorems are about the transcribed decision functions; that the event-driven proxy takes exactly "
+            "these decisions on every path (and has no other way to serve a stored reply, e.g. collapsed forwarding, "
+            "cache_dir swap-in, ICP/HTCP/digests, Vary, ranges, adaptation) rests on the end-to-end correspondence "
+            "(forward proxy, memory cache, sequential identical requests, no Age/Vary/Surrogate-Control). Default "
+            "settings are hard-wired from regenerated constants (no refresh_pattern => REFRESH_OVERRIDE is false, "
+            "reload_into_ims/offline_mode/refresh_all_ims off; C11_defaults_assumed re-checks them); ignoreCacheControl "
+            "(Surrogate-Control in accelerator mode) is a hypothesis. Date parsing is not modelled (times enter as "
+            "integers). Trusted: Coq kernel, extraction, gen/gen_reuse.cc, gen/gen_reusecfg.py, vlib/lab.py stubs, "
+            "harness/h_reuse.cc.",
+    "technique": "Coq proof (fold invariants over the directive list, case analysis following the reusableReply cascade, "
+                 "induction on list text reusing C04's list-reading theorem, vm_compute on regenerated tables) + "
+                 "end-to-end differential correspondence of the extracted model against the running squid + unit-level "
+                 "differential correspondence of the Cache-Control reader + independent Python oracles",
 }
 
 # ------------------------------------------------------------------ scenarios
@@ -20,6 +51,7 @@ REQ_EXT = ["foo", "x-req=\"a, b\"", "no-storey", "stale-if-error=10", "no-transf
 CTYPES = [None, "text/plain", "text/html; charset=utf-8", "multipart/x-mixed-replace; boundary=x",
           "Multipart/X-Mixed-Replace", "multipart/x-mixed-replaced", "multipart/mixed"]
 STATUSES_OK = [200, 200, 200, 200, 200, 200, 203, 300, 301, 308, 410]
+NEG_STATUSES = (204, 305, 403, 404, 405, 414, 500, 501, 502, 503, 504, 421, 400)
 STATUSES_OTHER = [302, 307, 204, 303, 400, 401, 403, 404, 405, 414, 500, 501, 502, 503, 504, 206, 406, 409, 201, 202, 451, 299]
 
 
@@ -65,7 +97,7 @@ def gen_one(rng, k):
          "expires": None, "lm": None, "ctype": None, "blen": rng.choice([0, 1, 5, 5, 5, 20, 20, 300]), "resp_pragma": None,
          "etag": rng.random() < 0.3}
     # ---- status
-    s["status"] = rng.choice(STATUSES_OK) if rng.random() < 0.78 else rng.choice(STATUSES_OTHER)
+    s["status"] = rng.choice(STATUSES_OK) if rng.random() < 0.85 else rng.choice(STATUSES_OTHER)
     if s["status"] in (204,):
         s["blen"] = 0
     # ---- freshness information (most scenarios would be hits if nothing forbids it)
@@ -74,10 +106,10 @@ def gen_one(rng, k):
     if f < 0.30: rd.append("max-age=%d" % rng.choice([3600, 86400, 600, 31536000]))
     elif f < 0.42: rd.append("s-maxage=%d" % rng.choice([3600, 7200]))
     elif f < 0.60: s["expires"] = rng.choice([3600, 86400, 7200])
-    elif f < 0.72: s["lm"] = -rng.choice([864000, 8640000, 4000000])
-    elif f < 0.78: rd.append("max-age=%d" % rng.choice([3600, 600])); s["expires"] = -1000
-    elif f < 0.84: s["expires"] = rng.choice([-1000, 0, "bad", -100000])
-    elif f < 0.89: rd.append(rng.choice(["max-age=0", "s-maxage=0", "max-age=-1", "max-age=abc", "max-age", "max-age=99999999999",
+    elif f < 0.74: s["lm"] = -rng.choice([864000, 8640000, 4000000])
+    elif f < 0.82: rd.append("max-age=%d" % rng.choice([3600, 600])); s["expires"] = -1000
+    elif f < 0.87: s["expires"] = rng.choice([-1000, 0, "bad", -100000])
+    elif f < 0.92: rd.append(rng.choice(["max-age=0", "s-maxage=0", "max-age=-1", "max-age=abc", "max-age", "max-age=99999999999",
                                          "max-age=\"3600\"", "max-age= 3600", "max-age=3600x", "s-maxage=+3600"]))
     # else: no freshness information at all
     if rng.random() < 0.25 and s["lm"] is None:
@@ -109,8 +141,8 @@ def gen_one(rng, k):
     # ---- request
     qd = []
     if rng.random() < 0.12: qd.append(rng.choice(["no-store", "no-store", "no-store=1"]))
-    if rng.random() < 0.10: qd.append(rng.choice(["no-cache", "no-cache", "no-cache=\"x\"", "no-cache=x"]))
-    if rng.random() < 0.10: qd.append(rng.choice(["max-age=0", "max-age=100000", "max-age=3600", "max-age=x", "max-age"]))
+    if rng.random() < 0.07: qd.append(rng.choice(["no-cache", "no-cache=\"x\"", "no-cache=x", "no-cache=x"]))
+    if rng.random() < 0.08: qd.append(rng.choice(["max-age=0", "max-age=100000", "max-age=3600", "max-age=x", "max-age"]))
     if rng.random() < 0.08: qd.append(rng.choice(["max-stale", "max-stale=100000", "max-stale=0", "max-stale=x"]))
     if rng.random() < 0.08: qd.append(rng.choice(["min-fresh=0", "min-fresh=100", "min-fresh=1000000", "min-fresh=x"]))
     if rng.random() < 0.03: qd.append("only-if-cached")
@@ -120,7 +152,12 @@ def gen_one(rng, k):
     s["req_cc"] = join_fields(rng, [case_name(rng, x) for x in qd])
     if rng.random() < 0.05: s["req_pragma"] = rng.choice(["no-cache", "NO-CACHE", "no-cache , x", "x, no-cache", "foo", "no-cache=1"])
     if rng.random() < 0.28: s["auth"] = rng.choice(["Basic YTpi", "Bearer abc.def", "Digest username=\"a\""])
-    if rng.random() < 0.04: s["method"] = rng.choice(["HEAD", "POST", "OPTIONS"]) if False else "GET"
+    m = rng.random()
+    if m < 0.04: s["method"] = "HEAD"
+    elif m < 0.09: s["method"] = rng.choice(["POST", "OPTIONS", "DELETE", "PUT", "FOOBAR"])
+    # a few non-default configurations (negative caching) to exercise that branch of the model; not judged by the oracle
+    if s["status"] in NEG_STATUSES and rng.random() < 0.5:
+        s["neg_ttl"] = 300
     return s
 
 
@@ -143,11 +180,11 @@ def opt(x):
 
 
 def to_case(s):
-    return "reuse.e2e %s %d %d %s %s %s %s %s %s %s %d %s" % (
+    return "reuse.e2e %s %d %d %s %s %s %s %s %s %s %d %s %d" % (
         hexs(s["method"]), s["status"], 1 if s["auth"] else 0,
         hexlist([s["req_pragma"]] if s["req_pragma"] is not None else []), hexlist(s["req_cc"]), hexlist(s["resp_cc"]),
         opt(s["date"]), opt(s["expires"]), opt(s["lm"]), "none" if s["ctype"] is None else hexs(s["ctype"]), s["blen"],
-        hexlist([s["resp_pragma"]] if s["resp_pragma"] is not None else []))
+        hexlist([s["resp_pragma"]] if s["resp_pragma"] is not None else []), s.get("neg_ttl", 0))
 
 
 # ------------------------------------------------------------------ implementation side
@@ -196,16 +233,23 @@ def _one(args):
     return "first=%d second=%s" % (n1, second)
 
 
+def _squid_for(L, neg_ttl):
+    """one squid per configuration: the default one, and (for the few non-default scenarios) negative_ttl N"""
+    key = "sq%d" % neg_ttl
+    if key not in _state or not _state[key].alive():
+        _state[key] = L.squid(cache_mem="64 MB", extra_conf=("negative_ttl %d seconds\n" % neg_ttl) if neg_ttl else "")
+    return _state[key]
+
+
 def run_impl(L, scenarios):
-    if "sq" not in _state or not _state["sq"].alive():
+    if "org" not in _state:
         _state["org"] = L.origin()
-        _state["sq"] = L.squid(cache_mem="64 MB")
         _state["n"] = 0
-    sq, org = _state["sq"], _state["org"]
+    org = _state["org"]
     jobs = []
     for s in scenarios:
         _state["n"] += 1
-        jobs.append((sq, org, s, "r%d" % _state["n"]))
+        jobs.append((_squid_for(L, s.get("neg_ttl", 0)), org, s, "r%d" % _state["n"]))
     with concurrent.futures.ThreadPoolExecutor(max_workers=8) as ex:
         return list(ex.map(_one, jobs))
 
@@ -255,6 +299,8 @@ def forbidden_reason(s):
 
 
 def oracle(s, obs):
+    if s.get("neg_ttl", 0):
+        return None     # the property is about default settings; these scenarios only exercise the model
     if not obs.startswith("first="):
         return ("oracle:no-transaction", "the transaction did not complete: " + obs)
     why = forbidden_reason(s)
@@ -262,16 +308,6 @@ def oracle(s, obs):
         return ("oracle:served-from-cache:" + why,
                 "the second identical request was answered without contacting the origin although storing was forbidden (%s)" % why)
     return None
-
-
-def run(res, tier):
-    res.rule = ("TODO")
-    std.run_lab(res, PID, tier, area="reuse", gens=["hdrtable", "reuse", "reusecfg"], gen_scenarios=gen_scenarios,
-                run_impl=run_impl, to_case=to_case, oracle=oracle, corr_name="ReuseModel (second_request) vs the running squid",
-                n_quick=300, n_thorough=8000, seed_salt=11,
-                kind_fn=lambda s, o: o.split()[-1] + (":forbidden" if forbidden_reason(s) else ":allowed"),
-                nontrivial_fn=lambda s, o: forbidden_reason(s) is not None)
-    _state.clear()
 
 
 # ------------------------------------------------------------------ unit-level correspondence (Cache-Control reader)
@@ -318,3 +354,103 @@ def gen_unit_cases(rng, n):
                                 "no-cach", "", "\"no-cache\"", "a\"b,no-cache\"", " no-cache"]) for _ in range(rng.choice([1, 1, 2]))]
             out.append("reuse.member %s %s" % (hexlist(vals), hexs("no-cache")))
     return out
+
+
+def simple_text(v):
+    """mirror of the Coq predicate `simple`: no DQUOTE, no NUL, no LF/VT/FF/CR"""
+    return not any(c in v for c in '"\x00\n\x0b\x0c\r')
+
+
+def unit_oracle(case, out):
+    """the text-level part of the property on the IMPLEMENTATION's Cache-Control reader: for quote-free field values, a
+    no-store / private element is always reported, and public / must-revalidate / s-maxage only when such an element exists"""
+    a = case.split()
+    if a[0] != "reuse.cc" or a[1] == ".":
+        return None
+    vals = [bytes.fromhex(x).decode("latin1") if x != "-" else "" for x in a[1].split(",")]
+    if not all(simple_text(v) for v in vals):
+        return None
+    # getList joins the field values with ", "; a quote-free value cannot change how its neighbours are split
+    names = directives(vals)
+    f = dict(kv.split("=", 1) for kv in out.split()) if out != "null" else {}
+    if "no-store" in names and f.get("ns") != "1":
+        return ("oracle:reader-misses-no-store", "a no-store element is present but HttpHdrCc does not report it")
+    if "private" in names and f.get("priv") != "1":
+        return ("oracle:reader-misses-private", "a private element is present but HttpHdrCc does not report it")
+    if f.get("pub") == "1" and "public" not in names:
+        return ("oracle:reader-invents-public", "HttpHdrCc reports public without such an element")
+    if f.get("mr") == "1" and "must-revalidate" not in names:
+        return ("oracle:reader-invents-must-revalidate", "HttpHdrCc reports must-revalidate without such an element")
+    if f.get("sma", "-") != "-" and "s-maxage" not in names:
+        return ("oracle:reader-invents-s-maxage", "HttpHdrCc reports s-maxage without such an element")
+    return None
+
+
+FRESH = ["src/HttpHdrCc.cc", "src/HttpHeader.cc", "src/HttpHeaderTools.cc", "src/StrList.cc"]
+UB = ["-O1", "-g", "-fsanitize=undefined", "-fno-sanitize=vptr", "-fno-sanitize-recover=all"]
+LINK = [x for x in recipes.HTTPREPLY if x != "SquidConfig.o"]
+
+
+def impl():
+    return hbuild.build("h_reuse", "h_reuse.cc", fresh=FRESH, link=LINK, sanitize=None, flags=UB,
+                        syslibs=["-fsanitize=undefined"] + hbuild.SYSLIBS)
+
+
+def prebuild():
+    impl()
+
+
+def unit_stage(res, tier):
+    """Cache-Control reader: extracted model vs the real HttpHdrCc/HttpHeader/StrList code (UBSan build)"""
+    try:
+        exe = impl()
+    except hbuild.BuildError as ex:
+        res.fail("build", "C11: harness no longer builds against /repo's working tree: %s" % str(ex)[-1200:],
+                 {"no_failing_input_found": True, "broken": "harness build h_reuse", "detail": str(ex)[-3000:]})
+        return
+    runner = coq.build_runner("reuse")
+    rng = random.Random(common.seed() * 1000003 + 1111)
+    cases = std.load_corpus(PID) + gen_unit_cases(rng, 20000 if tier == "quick" else 400000)
+    impl_out, model_out, dis = std.corr_stage(
+        res, cases, exe, runner,
+        kind_fn=lambda c, o: "unit:" + c.split()[0].split(".")[1] + (":null" if o == "null" else ""),
+        nontrivial_fn=lambda c, o: c.startswith("reuse.cc") and o != "null")
+    found = 0
+    for c, o in zip(cases, impl_out):
+        v = unit_oracle(c, o)
+        if v:
+            sig, why = v
+            if res.fail(sig, "C11 on input `%s`: implementation answered `%s`: %s" % (c[:400], o[:300], why),
+                        {"case": c, "impl": o, "oracle": why, "signature": sig}):
+                found += 1
+    if dis and not found:
+        k, c, a, b = dis[0]
+        res.fail("corr:unit", "Cache-Control reader: model and implementation disagree on %d cases (first: `%s` impl=`%s` "
+                 "model=`%s`); the property oracle holds on every implementation answer explored" % (len(dis), c[:300], a[:200], b[:200]),
+                 {"no_failing_input_found": True, "broken": "correspondence ReuseModel (cc_of_values) vs HttpHeader::getCc",
+                  "case": c, "impl": a, "model": b, "disagreements": len(dis)})
+    res.extra["unit_cases"] = len(cases)
+    res.extra["unit_disagreements"] = len(dis)
+
+
+def run(res, tier):
+    res.rule = ("end to end: one new URL requested twice with identical headers through the real squid (forward proxy, memory "
+                "cache): random request Cache-Control (no-store, no-cache[=..], max-age, max-stale, min-fresh, only-if-cached, "
+                "extensions), Pragma, Authorization, method (GET mostly; HEAD, POST, OPTIONS, DELETE, PUT, extension); random "
+                "response status (85% heuristically cacheable ones), freshness information chosen so that most scenarios "
+                "would be hits (max-age / s-maxage / Expires / Last-Modified, also expired, malformed or missing), Date "
+                "now/absent/past/future, response Cache-Control directives (no-store, private, no-cache with and without "
+                "arguments, public, must-revalidate, proxy-revalidate, immutable, extensions, look-alikes) in random "
+                "letter case, spacing, empty elements, duplicates, split over several fields, quoted arguments containing "
+                "commas, Content-Type multipart/x-mixed-replace, Pragma, body lengths incl. 0; a few scenarios with "
+                "negative_ttl 300. Observable: origin arrivals for the first request and whether the second request "
+                "reached the origin and was conditional. Unit level: 20000 (quick) random Cache-Control field sets / "
+                "integers / lists / Pragma members through HttpHeader::getCc, httpHeaderParseInt, strListGetItem, "
+                "hasListMember. non-trivial = scenario in which the property forbids serving from cache")
+    unit_stage(res, tier)
+    std.run_lab(res, PID, tier, area="reuse", gens=["hdrtable", "reuse", "reusecfg"], gen_scenarios=gen_scenarios,
+                run_impl=run_impl, to_case=to_case, oracle=oracle, corr_name="ReuseModel (two_requests) vs the running squid",
+                n_quick=320, n_thorough=8000, seed_salt=11,
+                kind_fn=lambda s, o: o.split()[-1] + (":forbidden" if forbidden_reason(s) else ":allowed"),
+                nontrivial_fn=lambda s, o: forbidden_reason(s) is not None)
+    _state.clear()
